@@ -42,7 +42,9 @@ func checkPanics(r *vkit.Run) {
 	st := bfe_http2.GetHttp2State()
 	r.Count("bfe_H2PanicConn", st.H2PanicConn.Get())
 	r.Count("bfe_H2PanicStream", st.H2PanicStream.Get())
-	if int(atomic.LoadInt32(&panicSeen)) >= len(ps) && st.H2PanicStream.Get() == 0 {
+	exp := atomic.LoadInt64(&expectedHandlerPanics)
+	r.Count("handler_panics_provoked_on_purpose", exp)
+	if int(atomic.LoadInt32(&panicSeen)) >= len(ps) && st.H2PanicStream.Get() == exp {
 		return
 	}
 	seen := map[string]bool{}
@@ -55,7 +57,7 @@ func checkPanics(r *vkit.Run) {
 		r.Violation(sig, "bfe_http2 serve goroutine panicked (recovered by notePanic): "+p.Value,
 			map[string]interface{}{"panic": p.Value, "stack": trunc(p.Stack, 4000)})
 	}
-	if n := st.H2PanicStream.Get(); n > 0 {
+	if n := st.H2PanicStream.Get(); n != exp {
 		r.Violation("panic:handler-goroutine", "bfe counted handler-goroutine panics (H2PanicStream)", map[string]interface{}{"count": n})
 	}
 }
@@ -140,11 +142,17 @@ func dialTCP(srv *bfe_http2.Server, h bfe_http.Handler) (*testConn, error) {
 }
 
 func serveOn(srv *bfe_http2.Server, h bfe_http.Handler, sEnd, cEnd net.Conn) *testConn {
+	return serveOnWith(srv, baseServer(), h, sEnd, cEnd)
+}
+
+// serveOnWith is serveOn with a caller-supplied base server (graceful
+// shutdown channel, shutdown timeout).
+func serveOnWith(srv *bfe_http2.Server, hs *bfe_http.Server, h bfe_http.Handler, sEnd, cEnd net.Conn) *testConn {
 	if srv == nil {
 		srv = &bfe_http2.Server{}
 	}
 	vc := bfe_http2.VerifNewConn(sEnd)
-	go vc.Serve(srv, baseServer(), h)
+	go vc.Serve(srv, hs, h)
 	return &testConn{cli: h2cli.New(cEnd), vc: vc}
 }
 
